@@ -4,15 +4,15 @@ go 1.26.8
 
 require (
 	github.com/ClickHouse/ch-go v0.0.0
+	github.com/go-faster/city v1.0.1
 	github.com/google/uuid v1.6.0
+	github.com/klauspost/compress v1.18.0
+	github.com/pierrec/lz4/v4 v4.1.22
 	pgregory.net/rapid v1.3.0
 )
 
 require (
-	github.com/go-faster/city v1.0.1 // indirect
 	github.com/go-faster/errors v0.7.1 // indirect
-	github.com/klauspost/compress v1.18.0 // indirect
-	github.com/pierrec/lz4/v4 v4.1.22 // indirect
 	github.com/segmentio/asm v1.2.0 // indirect
 	go.opentelemetry.io/otel v1.35.0 // indirect
 	go.opentelemetry.io/otel/trace v1.35.0 // indirect
